@@ -39,14 +39,14 @@ def case(draw, tier):
     start = draw(st.sampled_from([0, 0, 3]))
     horizon = draw(st.integers(5, 36 if big else 16))
     end = start + horizon
-    shape = draw(st.sampled_from(["TS[int]", "TS[int]", "TSS[int]", "TSS[int]", "TSD[int,TS[int]]", "TSB[f0:TS[int],f1:TS[int]]"]))
+    shape = draw(st.sampled_from(["TS[int]", "TS[int]", "TSS[int]", "TSS[int]", "TSD[int,TS[int]]", "TSB[f0:TS[int],f1:TS[int]]", "TSL[TS[int],2]"]))
 
     def target():
         if shape == "TS[int]":
             return draw(gen.int_script(start, end - 1, max_size=8 if big else 5))
         if shape == "TSS[int]":
             return _set_script(draw, start, end, 7 if big else 5)
-        if shape.startswith("TSB"):
+        if shape.startswith("TSB") or shape.startswith("TSL"):
             out = []
             for t in draw(gen.time_set(start, end - 1, 1, 7 if big else 5)):
                 fields = draw(st.lists(st.integers(0, 1), min_size=1, max_size=2, unique=True))
@@ -58,7 +58,7 @@ def case(draw, tier):
     # the reference is made by if_then_else (two targets, boolean condition) or by if_cmp (three targets, selected by the
     # three-way result of cmp_(x, 0) for a scripted x)
     via = draw(st.sampled_from(["ite", "ite", "cmp", "switch", "ite2", "if_"]))
-    if via == "switch" and shape.startswith("TSB"):
+    if via == "switch" and (shape.startswith("TSB") or shape.startswith("TSL")):
         via = "ite"     # a bundle forwarded out of a switch_ keeps the fields last forwarded by the previous branch: not asserted here
     c2 = []
     if via == "ite2":
@@ -117,7 +117,8 @@ def strategy(tier):
 
 def schema_of(shape):
     return {"TS[int]": ("TS", "int"), "TSS[int]": ("TSS", "int"), "TSD[int,TS[int]]": ("TSD", "int", ("TS", "int")),
-            "TSB[f0:TS[int],f1:TS[int]]": ("TSB", [("f0", ("TS", "int")), ("f1", ("TS", "int"))])}[shape]
+            "TSB[f0:TS[int],f1:TS[int]]": ("TSB", [("f0", ("TS", "int")), ("f1", ("TS", "int"))]),
+            "TSL[TS[int],2]": ("TSL", ("TS", "int"), 2)}[shape]
 
 
 EMPTY = "(empty)"
@@ -366,6 +367,22 @@ def check(case, ctx) -> Result:
                 gv = {k: x for k, x in gv}
             if shape.startswith("TSS") and gv is not None:
                 gv = sorted(gv)
+            if shape.startswith("TSL"):
+                from props.c05 import tree_value
+                gv = tree_value(g, schema_of(shape))       # validity-aware: None for an element that holds nothing
+            if shape.startswith("TSL") or shape.startswith("TSB"):
+                # the filtered iteration accessors of the consumer's view agree with its children's own flags, and in a retarget
+                # cycle every valid child reads modified (the whole new target is "new" to the consumer)
+                ch, it = g.get("ch") or [], g.get("it")
+                if isinstance(it, dict) and "mi" in it and all(isinstance(c_.get("m"), bool) for c_ in ch):
+                    names = it.get("names") or list(range(len(ch)))
+                    e_mi = sorted(str(names[i_]) for i_, c_ in enumerate(ch) if c_["m"])
+                    if sorted(map(str, it["mi"])) != e_mi or it.get("mv") != len(e_mi):
+                        res.violations.append(Viol("wrong_value_through_reference", f"consumer {lbl} at t={t} ({e['kind']}): modified_items() lists {it['mi']} ({it.get('mv')} modified_values) but the children reading modified are {e_mi}", dict(feats, accessor="modified_items")))
+                        break
+                if e["kind"] == "retarget" and any(c_.get("v") and not c_.get("m") for c_ in ch):
+                    res.violations.append(Viol("wrong_value_through_reference", f"consumer {lbl} at t={t} (retarget): children valid={[c_.get('v') for c_ in ch]} modified={[c_.get('m') for c_ in ch]}: a valid child of the newly selected target does not read modified", dict(feats, accessor="child_modified")))
+                    break
             if not g.get("m") or gv != e["value"]:
                 res.violations.append(Viol("wrong_value_through_reference", f"consumer {lbl} at t={t} ({e['kind']}): read {str(gv)[:100]} modified={g.get('m')}, the current target holds {str(e['value'])[:100]}", feats))
                 break
